@@ -83,7 +83,7 @@ type c20Mon struct {
 	rel [2]atomic.Int64
 
 	acqFailed, cancelQueuedI, yieldMoved, yieldFailed, yieldFailedQueued, yieldNoop atomic.Int64
-	preCancelled, betweenCancelled                                                   atomic.Int64
+	preCancelled, betweenCancelled                                                  atomic.Int64
 
 	baseRunning, baseQueued, baseRunTotal [2]int64
 
@@ -112,8 +112,10 @@ func (m *c20Mon) rebase() {
 	}
 }
 
-func (m *c20Mon) queued(q int) int64  { return c20Gauge(m.sem[q].metricQueued.gauge) - m.baseQueued[q] }
-func (m *c20Mon) running(q int) int64 { return c20Gauge(m.sem[q].metricRunning.gauge) - m.baseRunning[q] }
+func (m *c20Mon) queued(q int) int64 { return c20Gauge(m.sem[q].metricQueued.gauge) - m.baseQueued[q] }
+func (m *c20Mon) running(q int) int64 {
+	return c20Gauge(m.sem[q].metricRunning.gauge) - m.baseRunning[q]
+}
 
 func (m *c20Mon) witness(extra map[string]any) any {
 	w := map[string]any{"kind": m.kind, "cap_interactive": m.cap[0], "cap_batch": m.cap[1]}
@@ -219,16 +221,23 @@ type c20Plan struct {
 	Spin       int    `json:"spin"`
 	RetryYield bool   `json:"retry_yield"` // keep calling Yield after it failed (streamSearch does)
 	Gate       string `json:"gate"`        // "", "afterAcquire", "afterYield"
+	// YieldOwnCtx: Yield is called with a context of its own that stays live while the
+	// plan cancels the context Acquire was called with (streamSearch passes its own
+	// context to every Yield; Acquire and Yield take separate context arguments)
+	YieldOwnCtx bool `json:"yield_own_ctx"`
 }
 
 type c20Worker struct {
 	id     int
 	plan   c20Plan
-	ctx    context.Context
+	ctx    context.Context // passed to Acquire
+	yctx   context.Context // passed to Yield (== ctx unless plan.YieldOwnCtx)
 	cancel context.CancelFunc
-	st     atomic.Int32
-	yields atomic.Int32 // number of Yield calls started
-	gate   chan struct{}
+	// cancelPlan is what the plan's cancellation points call: the Acquire context only
+	cancelPlan context.CancelFunc
+	st         atomic.Int32
+	yields     atomic.Int32 // number of Yield calls started
+	gate       chan struct{}
 
 	acqErr   bool
 	yieldErr bool
@@ -261,7 +270,7 @@ func (w *c20Worker) run(m *c20Mon, scheds [2]*multiScheduler) {
 		sched = scheds[0]
 	}
 	if p.Cancel == "before" {
-		w.cancel()
+		w.cancelPlan()
 		m.preCancelled.Add(1)
 	}
 	c20Spin(p.Spin)
@@ -294,7 +303,7 @@ func (w *c20Worker) run(m *c20Mon, scheds [2]*multiScheduler) {
 	for j := 0; j < p.K; j++ {
 		c20Spin(p.Spin)
 		if p.Cancel == "between" && p.J == j {
-			w.cancel()
+			w.cancelPlan()
 			m.betweenCancelled.Add(1)
 		}
 		// process fields are owned by the goroutine that may call Yield; reading
@@ -307,7 +316,7 @@ func (w *c20Worker) run(m *c20Mon, scheds [2]*multiScheduler) {
 		}
 		w.yields.Add(1)
 		var yerr error
-		if msg, stack, pan := kit.Guard(func() { yerr = proc.Yield(w.ctx) }); pan {
+		if msg, stack, pan := kit.Guard(func() { yerr = proc.Yield(w.yctx) }); pan {
 			c20PanicViolation(m, w, "Yield", msg, stack)
 			return
 		}
@@ -319,8 +328,8 @@ func (w *c20Worker) run(m *c20Mon, scheds [2]*multiScheduler) {
 			if p.Cancel == "inYield" || p.Cancel == "ext" {
 				m.yieldFailedQueued.Add(1)
 			}
-			if w.ctx.Err() == nil {
-				m.rec.Violation("Yield failed with live context/"+m.kind, fmt.Sprintf("Yield returned %v while ctx.Err()==nil", yerr), m.witness(map[string]any{"worker": w.id, "plan": p}))
+			if w.yctx.Err() == nil {
+				m.rec.Violation("Yield failed with live context/"+m.kind, fmt.Sprintf("Yield returned %v while the context passed to Yield is live (ctx.Err()==nil; own context: %v)", yerr, p.YieldOwnCtx), m.witness(map[string]any{"worker": w.id, "plan": p}))
 			}
 			if held == c20I {
 				// a Yield we did not expect to move anything failed: it can only
@@ -381,12 +390,18 @@ func (w *c20Worker) canceller() {
 		return
 	}
 	c20Spin(w.plan.Delay)
-	w.cancel()
+	w.cancelPlan()
 }
 
 func c20NewWorker(id int, p c20Plan, gate chan struct{}) *c20Worker {
 	w := &c20Worker{id: id, plan: p, gate: gate}
-	w.ctx, w.cancel = context.WithCancel(context.Background())
+	var root context.Context
+	root, w.cancel = context.WithCancel(context.Background()) // rescue / end of scenario: everything
+	w.ctx, w.cancelPlan = context.WithCancel(root)
+	w.yctx = w.ctx
+	if p.YieldOwnCtx {
+		w.yctx = root
+	}
 	return w
 }
 
@@ -479,6 +494,7 @@ func c20RandPlan(r *rand.Rand) c20Plan {
 		}
 		p.Cancel = "between"
 		p.J = r.IntN(p.K)
+		p.YieldOwnCtx = r.IntN(2) == 0
 	default:
 		p.Dur0 = true
 		if p.K == 0 {
@@ -866,7 +882,9 @@ func c20Sharded(rec *kit.Rec, r *rand.Rand, no int) {
 			plans[g] = append(plans[g], p)
 		}
 	}
-	m.desc = func() any { return map[string]any{"scenario_no": no, "shards": nShards, "goroutines": nG, "plans": plans} }
+	m.desc = func() any {
+		return map[string]any{"scenario_no": no, "shards": nShards, "goroutines": nG, "plans": plans}
+	}
 	var failed, okReq atomic.Int64
 	var wg sync.WaitGroup
 	var cancels []context.CancelFunc
